@@ -6,7 +6,8 @@ pub type CtItem = (TaskId, InstanceId, Option<ResourceVariantId>);
 pub struct ComputeTasksMsg {}
 impl ComputeTasksMsg { pub uninterp spec fn items(&self) -> Seq<CtItem>; }
 #[verifier::external_body]
-pub struct NewWorkerMsg {}
+pub struct WorkerResourceCounts {}
+//@ extract struct NewWorkerMsg file=crates/tako/src/internal/messages/worker.rs
 //@ extract struct TaskIdsMsg file=crates/tako/src/internal/messages/worker.rs
 //@ extract enum ToWorkerMessage file=crates/tako/src/internal/messages/worker.rs
 //@ extract struct TaskRunningMsg file=crates/tako/src/internal/messages/worker.rs
@@ -71,6 +72,8 @@ trait EventProcessor {
         ensures final(self).clog() == old(self).clog().push(CEv::Error(task_id, consumers_id@));
     fn on_worker_lost(&mut self, worker_id: WorkerId, running_tasks: &[TaskId], reason: LostWorkerReason)
         ensures final(self).clog() == old(self).clog().push(CEv::WorkerLost(worker_id, running_tasks@, reason));
+    fn on_worker_new(&mut self, worker_id: WorkerId, configuration: &WorkerConfiguration)
+        ensures final(self).clog() == old(self).clog().push(CEv::WorkerNew(worker_id));
 }
 trait Comm {
     type Client: EventProcessor;
@@ -139,7 +142,7 @@ impl TaskQueue {
     { unimplemented!() }
     #[verifier::external_body]
     fn move_prefilled_task_to_ready(&mut self, task_id: TaskId)
-        requires old(self).prefill().contains(task_id)
+        requires old(self).prefill().contains(task_id)      //: C09 C07
         ensures final(self).prefill() == old(self).prefill().remove(task_id), final(self).ready() == old(self).ready().insert(task_id)
     { unimplemented!() }
     #[verifier::external_body]
@@ -250,6 +253,23 @@ impl Core {
             final(self).resource_map == old(self).resource_map, final(self).worker_id_counter == old(self).worker_id_counter,
     { unimplemented!() }
 }
+// Core::new_worker (core.rs): registers the worker in its group (String-keyed map; not relevant here) and stores it under its id. ASSUMED contract.
+//@ extract sig Core::new_worker file=crates/tako/src/internal/server/core.rs arity=2
+impl Core {
+    #[verifier::external_body]
+    fn new_worker(&mut self, worker: Worker)
+        ensures
+            final(self).workers.workers@ == old(self).workers.workers@.insert(worker.id, worker),
+            final(self).tasks == old(self).tasks, final(self).task_queues == old(self).task_queues, final(self).scheduler_state == old(self).scheduler_state,
+            final(self).resource_map == old(self).resource_map, final(self).worker_id_counter == old(self).worker_id_counter,
+    { unimplemented!() }
+}
+impl WorkerResources {
+    // the per-resource totals as sent to other workers (opaque here)
+    #[verifier::external_body]
+    fn to_transport(&self) -> (r: WorkerResourceCounts) { unimplemented!() }
+}
+//@ extract sig WorkerResources::to_transport file=crates/tako/src/internal/server/workerload.rs arity=1
 //@ extract fn Worker::assignment file=crates/tako/src/internal/server/worker.rs
     ensures *r == self.assignment,
 //@ end
